@@ -36,13 +36,13 @@ type Case struct {
 	Kind  string     `json:"kind"` // migrate_fail | migrate_dryrun | schema_fail | schema_dryrun
 	Mode  string     `json:"tx_mode,omitempty"`
 	Shape []fileSpec `json:"shape,omitempty"`
-	FailF int        `json:"fail_file"`          // 0-based index of the file holding the failing statement (-1 none)
-	FailK int        `json:"fail_stmt"`          // 0-based index of the failing statement
+	FailF int        `json:"fail_file"`            // 0-based index of the file holding the failing statement (-1 none)
+	FailK int        `json:"fail_stmt"`            // 0-based index of the failing statement
 	Fail2 int        `json:"fail_stmt2,omitempty"` // a second failing statement later in the same file (0 = none): fail, repair, fail again, repair
-	Count int        `json:"count"`              // apply count argument (0 = all)
-	State string     `json:"state,omitempty"`    // dry-run start state: fresh | partial | full
-	Scen  string     `json:"scenario,omitempty"` // schema apply scenario
-	Extra string     `json:"extra,omitempty"`    // extra flag (e.g. baseline)
+	Count int        `json:"count"`                // apply count argument (0 = all)
+	State string     `json:"state,omitempty"`      // dry-run start state: fresh | partial | full
+	Scen  string     `json:"scenario,omitempty"`   // schema apply scenario
+	Extra string     `json:"extra,omitempty"`      // extra flag (e.g. baseline)
 	// FailKind: "" = a statement naming a missing table; "or_rollback" = a constraint violation with the
 	// SQLite conflict clause OR ROLLBACK (the engine itself rolls the open transaction back).
 	FailKind string `json:"fail_kind,omitempty"`
@@ -51,6 +51,10 @@ type Case struct {
 	// Format: "" = an Atlas directory; otherwise the same files in another tool's layout, opened with
 	// ?format=<Format> (plain shapes only).
 	Format string `json:"format,omitempty"`
+	// Grow / Shrink: the repair changes the number of statements of the failing file: one more
+	// statement at its end / its last statement removed (the failing one is not the last).
+	Grow   bool `json:"grow,omitempty"`
+	Shrink bool `json:"shrink,omitempty"`
 }
 
 // writeDir writes the files of a case as a directory of its format.
@@ -113,7 +117,14 @@ func filesLvl(c Case, lvl int) map[string]string {
 		if fs.Ck || fs.TxMode != "" {
 			b.WriteString("\n")
 		}
-		for i := 0; i < fs.N; i++ {
+		n := fs.N
+		if lvl >= 2 && f == c.FailF && c.Grow {
+			n++
+		}
+		if lvl >= 2 && f == c.FailF && c.Shrink {
+			n--
+		}
+		for i := 0; i < n; i++ {
 			switch {
 			case f == startOf(c.Shape) && i == 0:
 				b.WriteString("CREATE TABLE journal (sid integer NOT NULL);\n")
@@ -895,6 +906,22 @@ func cases(tier string) []Case {
 			}
 		}
 	}
+	// the repair changes the number of statements of the file (one more at its end / the last one removed).
+	for _, sh := range [][]fileSpec{{{N: 3}}, {{N: 1}, {N: 3}}, {{N: 2}, {N: 3}, {N: 1}}} {
+		for f := range sh {
+			for k := 0; k < sh[f].N; k++ {
+				if f == 0 && k == 0 {
+					continue
+				}
+				for _, mode := range []string{"file", "all", "none"} {
+					cs = append(cs, Case{Kind: "migrate_fail", Mode: mode, Shape: sh, FailF: f, FailK: k, Grow: true})
+					if k < sh[f].N-1 {
+						cs = append(cs, Case{Kind: "migrate_fail", Mode: mode, Shape: sh, FailF: f, FailK: k, Shrink: true})
+					}
+				}
+			}
+		}
+	}
 	// fail, repair, fail again later in the same file, repair (every pair of positions).
 	for _, sh := range [][]fileSpec{{{N: 3}}, {{N: 4}}, {{N: 1}, {N: 3}}} {
 		f := len(sh) - 1
@@ -975,7 +1002,7 @@ func classify(c Case, problems []string) string {
 
 func Run(r *report.Run) {
 	defer clih.Cleanup()
-	r.Rule = "real CLI on real SQLite files: (1) `migrate apply`: directory shapes (1-3 files x 1-3 statements, and directories with a checkpoint file preceded by older files) x a really failing statement (naming a missing table; for the plain directories also a constraint violation with the SQLite conflict clause OR ROLLBACK) at every position x tx-mode {file, all, none} (also with a database URL that does not switch foreign-key enforcement on, and with the directory in the golang-migrate / flyway layout) x per-file txmode directive on the failing / preceding file x apply count {all, 1, 2} (plus every pair of failing positions in one file, repaired one after the other): the state after the failure (journal rows written by the statements themselves + revision rows, read by our own connection) must equal what the mode promises, and after repairing the file and re-running the full dump must equal that of a run that never failed; (1b) a failure of the commit itself: the SQLite driver refuses to commit a transaction that adds a foreign-key violation; on a database that already holds one (two) orphan rows the first file replaces them by another orphan (same / lower count), and on a database without violations the first file adds one in a child table with / without a rowid: file and all mode must fail and keep nothing; (1c) a commit that fails for a reason outside the file: another connection holds a read transaction on the database while the files are applied (connection with and without foreign-key enforcement): the command must fail, keep nothing of the files, and the same command again must complete; (2) `migrate apply --dry-run` from 5 start states (fresh, partially applied, one file applied, fully applied, non-empty without history) x modes x count x {--baseline, --allow-dirty}: dump and directory byte-identical; (3) `schema apply` on populated tables whose plan fails midway on the data, default / file / none tx-mode, approved by --auto-approve or at the prompt, and --dry-run (also of plans that would succeed, alone and together with --format / --log / --auto-approve); non-trivial = every case; distinct = the case tuple"
+	r.Rule = "real CLI on real SQLite files: (1) `migrate apply`: directory shapes (1-3 files x 1-3 statements, and directories with a checkpoint file preceded by older files) x a really failing statement (naming a missing table; for the plain directories also a constraint violation with the SQLite conflict clause OR ROLLBACK) at every position x tx-mode {file, all, none} (also with a database URL that does not switch foreign-key enforcement on, and with the directory in the golang-migrate / flyway layout) x per-file txmode directive on the failing / preceding file x apply count {all, 1, 2} (plus every pair of failing positions in one file, repaired one after the other; plus repairs that change the number of statements of the failing file: one more at its end, or its last one removed): the state after the failure (journal rows written by the statements themselves + revision rows, read by our own connection) must equal what the mode promises, and after repairing the file and re-running the full dump must equal that of a run that never failed; (1b) a failure of the commit itself: the SQLite driver refuses to commit a transaction that adds a foreign-key violation; on a database that already holds one (two) orphan rows the first file replaces them by another orphan (same / lower count), and on a database without violations the first file adds one in a child table with / without a rowid: file and all mode must fail and keep nothing; (1c) a commit that fails for a reason outside the file: another connection holds a read transaction on the database while the files are applied (connection with and without foreign-key enforcement): the command must fail, keep nothing of the files, and the same command again must complete; (2) `migrate apply --dry-run` from 5 start states (fresh, partially applied, one file applied, fully applied, non-empty without history) x modes x count x {--baseline, --allow-dirty}: dump and directory byte-identical; (3) `schema apply` on populated tables whose plan fails midway on the data, default / file / none tx-mode, approved by --auto-approve or at the prompt, and --dry-run (also of plans that would succeed, alone and together with --format / --log / --auto-approve); non-trivial = every case; distinct = the case tuple"
 	r.Assumptions = []string{
 		"after a repair the hash / partial_hashes columns of the revision row legitimately differ from a never-failed run and are masked; timestamps are masked",
 		"`--tx-mode all` with per-file txmode directives is rejected by the CLI and not enumerated",
